@@ -112,6 +112,7 @@ def swarm_knobs(rng):
     }
     # drawn last so that the program pool (generated from the knobs above) stays the same
     kn["async_generators"] = kn["coroutines"] and rng.random() < 0.5
+    kn["yield_from"] = kn["generators"] and rng.random() < 0.6
     kn["mutate_p"] = rng.choice([0, 0, 0.12, 0.3])
     kn["shared_p"] = rng.choice([0, 0, 0.15, 0.4]) if kn["mutate_p"] else 0
     return kn
@@ -368,6 +369,8 @@ def execute(plan):
         probes["call of unknown resolvability"] = 1
     if any(lp.funcs[c.fid]["body"] == "agen" and (c.yields or c.awaits) for c in comps):
         probes["async generator yielded / awaited and completed"] = 1
+    if any(rec[0] == "YF" for rec in J):
+        probes["generator delegating with yield from"] = 1
     if any(rec[0] == "MU" for rec in J):
         probes["argument container mutated in place after the call started"] = 1
         mutated = {id(rec[2]) for rec in J if rec[0] == "MU"}
